@@ -53,7 +53,9 @@ class EventSnapshot:
 
     def complete(self):
         """Close and complete the snapshot."""
-        self._duration_nanos = time_ns() - self._ts_nanos
+        # the wall clock can be set back while we collect (NTP): a negative duration cannot be sent, and would cost the
+        # whole snapshot
+        self._duration_nanos = max(0, time_ns() - self._ts_nanos)
 
     def add_watch_result(self, watch_result: 'WatchResult'):
         """
